@@ -58,7 +58,9 @@ def run(m, rep, tier):
 
     # ---- S2 --------------------------------------------------------------------------
     s2 = rep.rule('S2', 'resize compares the request with the effective geometry (or forces the rehash first)', floor=2)
-    f = mod.fn('cstl_hash_resize')
+    from ..hashmodel import focus_hash
+    fmod = focus_hash(m)
+    f = fmod.fn('cstl_hash_resize')
     if f is None or f.decl:
         s2.undecided('cstl_hash_resize', 'not in the model')
     else:
@@ -118,7 +120,7 @@ def run(m, rep, tier):
     s4 = rep.rule('S4', 'completion adopts the pending geometry; resize records the requested one', floor=2)
     for sw in roles.sweep:
         check_adopt(m, sw, s4)
-    f = mod.fn('cstl_hash_resize')
+    f = fmod.fn('cstl_hash_resize')
     if f is not None and not f.decl:
         check_resize_records(m, f, s4)
 
@@ -265,39 +267,50 @@ def check_resize_records(m, f, rule):
         bad.append('the sweep index is not restarted at 0')
     if not st_hsh:
         bad.append('no pending hash function is recorded')
-    from ..facts import phi_leaves
-    for s in st_hsh:
-        for v, lb, lfacts in phi_leaves(f, pv.fc, s.o[0]):
-            facts = set(pv.facts_at(s)) | set(lfacts or ())
-            if isinstance(v, str) and f.get(v) is not None and f.get(v).op == 'select':
-                # select(cond, a, b): split once more
-                from ..facts import cond_atoms
-                sel = f.get(v)
-                alts = [(strip_bitcasts(f, sel.o[1]), facts | set(cond_atoms(f, sel.o[0], True)[0])),
-                        (strip_bitcasts(f, sel.o[2]), facts | set(cond_atoms(f, sel.o[0], False)[0]))]
+    # path-sensitive: what is recorded as the pending function, judged under what the path to the store knows
+    def known_null_existing(ps):
+        return any(op == 'eq' and y == 'null' and is_load_of(f, x, 'bucket.hash') for (op, x, y) in ps.known)
+
+    def transfer(ins, st, ps):
+        if ins.op == 'call' and ins.x.get('noreturn'):
+            return None
+        if ins in st_hsh:
+            v = typestate.value_of(f, ps, ins.o[0])
+            v = strip_bitcasts(f, v) if isinstance(v, str) else v
+            req_null = ps.knows(('eq', '$2', 'null')) is True
+            req_nonnull = ps.knows(('ne', '$2', 'null')) is True
+            vi = f.get(v) if isinstance(v, str) else None
+            if v == '$2':
+                if not req_nonnull:
+                    bad.append('the requested function is recorded at %s without knowing it is non-NULL' % ins.loc())
+            elif is_load_of(f, v, 'bucket.hash'):
+                if not req_null or ps.knows(('ne', _k(v), 'null')) is not True:
+                    bad.append('the existing function is reused at %s although a function was requested (or none exists)' % ins.loc())
+                w = writer_between(f, f.get(v), ins, 'bucket.hash')
+                if w is not None:
+                    bad.append('the existing function recorded at %s was read at %s, before %s() at %s may adopt a pending one: a function '
+                               'requested by an earlier, still pending resize is replaced by the outgoing one'
+                               % (ins.loc(), f.get(v).loc(), w.callee, w.loc()))
+            elif isinstance(v, str) and v.startswith('@'):
+                if not req_null:
+                    bad.append('the default function is installed at %s although a function was requested' % ins.loc())
+                if not known_null_existing(ps):
+                    bad.append('the default function replaces an existing one at %s' % ins.loc())
+            elif vi is not None and vi.op in ('phi', 'select'):
+                bad.append('NOT-DECIDED')
             else:
-                alts = [(v, facts)]
-            for v2, fs in alts:
-                req_null = ('eq', '$2', 'null') in fs
-                req_nonnull = ('ne', '$2', 'null') in fs
-                if v2 == '$2':
-                    if not req_nonnull:
-                        bad.append('the requested function is recorded at %s without knowing it is non-NULL' % s.loc())
-                elif is_load_of(f, v2, 'bucket.hash'):
-                    if not req_null or ('ne', v2, 'null') not in fs:
-                        bad.append('the existing function is reused at %s although a function was requested (or none exists)' % s.loc())
-                    w = writer_between(f, f.get(v2), s, 'bucket.hash')
-                    if w is not None:
-                        bad.append('the existing function recorded at %s was read at %s, before %s() at %s may adopt a pending one: a function '
-                                   'requested by an earlier, still pending resize is replaced by the outgoing one'
-                                   % (s.loc(), f.get(v2).loc(), w.callee, w.loc()))
-                elif isinstance(v2, str) and v2.startswith('@'):
-                    if not req_null:
-                        bad.append('the default function is installed at %s although a function was requested' % s.loc())
-                    if not any(op == 'eq' and y == 'null' and is_load_of(f, x, 'bucket.hash') for (op, x, y) in fs):
-                        bad.append('the default function replaces an existing one at %s' % s.loc())
-                else:
-                    bad.append('the pending function recorded at %s is neither the request, the existing one nor the default' % s.loc())
+                bad.append('the pending function recorded at %s is neither the request, the existing one nor the default' % ins.loc())
+        return st
+    try:
+        res = typestate.run(f, 0, transfer, limit=100000)
+    except typestate.Limit as e:
+        rule.undecided('cstl_hash_resize:records', str(e), floc(m, f))
+        return
+    if 'NOT-DECIDED' in bad:
+        bad = [b for b in bad if b != 'NOT-DECIDED']
+        if not bad:
+            rule.undecided('cstl_hash_resize:records', 'the recorded function is a merge the path knowledge does not resolve', floc(m, f))
+            return
     if bad:
         rule.violation('cstl_hash_resize:records', '; '.join(sorted(set(bad))), floc(m, f), {})
     else:
